@@ -2,8 +2,8 @@
 
 CFG = {
     'sub': 'c11',
-    'gens': [],
-    'coq_files': ['Model_C11.v', 'Proofs_C11.v', 'Proofs_C11b.v', 'Proofs_C11c.v', 'Proofs_C11d.v', 'Props_C11.v', 'Run_C11.v'],
+    'gens': [('gen_tx_order.py', 'TxOrder.v')],
+    'coq_files': ['TxOrder.v', 'Model_C11.v', 'Proofs_C11.v', 'Proofs_C11b.v', 'Proofs_C11c.v', 'Proofs_C11d.v', 'Props_C11.v', 'Run_C11.v'],
     'props': 'Props_C11.v', 'run': 'Run_C11.v',
     'widen_runs': 2,
     'rule': 'forced schedules of the REAL package shard/cache (cache.NewManager(limit), NewTransaction, With, Commit, Release), a fresh Manager per '
@@ -80,3 +80,9 @@ LEVEL = {
     'technique': 'Coq proof (lock-protocol invariants by induction over arbitrary schedules and any number of transactions) + exhaustive forced-schedule '
                  'enumeration of the real cache package compared with the model',
 }
+
+CFG.setdefault('trusted_extra', []).append(
+    'translator gen/gen_tx_order.py: the model takes "the bbolt commit precedes cacheTx.Commit(false)" and "Commit(true) iff the storage '
+    'transaction returned an error" from shard/shard.go; the translator reads exactly that bracket off the four shard operations and '
+    'exits 3 on any other shape (a cache transaction settled inside the storage transaction breaks this obligation)')
+
